@@ -9,6 +9,7 @@ From CF Require Import Base.Mem Model.Tables Model.Prim Model.SimdApi Model.Kern
 From CF Require Import Proofs.KernelBounds Proofs.OpsWf Proofs.ListFacts Proofs.ReduceCorrect Proofs.IntReduce
      Proofs.IntBackends Proofs.BackendTable Proofs.IntrinsicsFacts Proofs.IntrinsicsEmul Proofs.GenRegsSpec.
 From CF Require Proofs.RegArith.
+From CF Require Import Model.RustLoops Proofs.RustLoopsFacts.
 Import ListNotations.
 Local Open Scope Z_scope.
 
@@ -374,11 +375,13 @@ Ltac norm_lanes R :=
   let n := eval vm_compute in (lanes R) in
   change (lanes R) with n in *.
 
-(* rebound by the generated goal files to Gen/GenRegs.unfold_gen (the list of generated names) *)
+(* rebound by the generated goal files to Gen/GenRegs.unfold_gen (the list of generated names) and, for the non-generic
+   back ends, Gen/GenRegs.unfold_gen_math (`AutoMath::m` at a concrete element type: the field of the regenerated record) *)
 Ltac unfold_gen_hook := idtac.
+Ltac unfold_math_hook := idtac.
 
 Ltac unfold_all :=
-  unfold_gen_hook; cbv beta iota delta [da db dc dd de df dg dh dmap dl];
+  unfold_gen_hook; unfold_math_hook; cbv beta iota delta [da db dc dd de df dg dh dmap dl];
   cbn [map]; eval_consts.
 
 (* integer LHS: push [bytes_of] outwards; n = the lane count of the register *)
@@ -459,16 +462,55 @@ Ltac split_dense IL IE :=
        cbn [apply_dense2 map2];
        apply list8_eq).
 
+(** * Scalar loops and panics (Model/RustLoops.v) *)
+
+(* every loop `for (idx, (a, b)) in zip(xs, ys).enumerate() { result[idx] = f(a, b); }` whose arrays are already in lane
+   form becomes [sequence (map2 f xs ys)] (f may panic) or [Some (map2 g xs ys)]; [obind (Some _)] is then reduced, which
+   exposes the next loop (roll-ups, fmadd = mul then add) *)
+Ltac loop_step :=
+  dec_norm;
+  first [ rewrite fze_store_opt by side | rewrite fze_store_tot by side ];
+  cbn [obind].
+Ltac loop_norm := loop_step; repeat loop_step.
+
+(* integer division: one case per register, in the order of evaluation; a zero divisor lane (None) on both sides, or the
+   quotients, which are in range again *)
+Ltac div_cases :=
+  repeat match goal with
+         | |- context [sequence (map2 (i_div ?sg ?w) ?x ?y)] =>
+             let E := fresh "E" in
+             destruct (sequence (map2 (i_div sg w) x y)) eqn:E;
+             [ apply seq_div_range in E; [ | lia | assumption | assumption ] | ];
+             cbn [obind option_map]; try reflexivity
+         end.
+
 Ltac solve_int r t R :=
   let IL := fresh "IL" in
   let IE := fresh "IE" in
   destruct (int_model_faithful r t R eq_refl) as [IL IE];
   cbn [width is_signed] in IL, IE;
-  cbv beta iota delta [method_goal bin_goal dbin_goal roll_goal fold_goal];
+  cbv beta iota delta [method_goal bin_goal dbin_goal roll_goal fold_goal obin_goal odbin_goal tot2 ddec];
   intros; open_dense; open_ok; norm_lanes R;
   unfold_all;
   first
     [ (* closed: constants, lane counts *) closed_goal; vm_compute; reflexivity
+    | (* scalar loops over the transmuted lanes; panics *)
+      lazymatch goal with |- context [for_zip_enum] => idtac end;
+      loop_norm;
+      first
+        [ (* the body never panics: the value, as for the instruction-level methods *)
+          cbn [option_map]; apply f_equal;
+          cbv beta iota delta [da db dc dd de df dg dh dl]; cbn [map];
+          split_dense IL IE; (let n := eval vm_compute in (lanes R) in enc_norm n); dec_norm; model_norm R IL IE; norm_lanes R;
+          reflexivity
+        | (* integer division *)
+          try rewrite (ie_div_dense _ _ _ IE); cbn [apply_dense2_opt];
+          repeat match goal with
+                 | |- context [r_div R ?x ?y] => rewrite (ie_div _ _ _ IE x y) by sideR R
+                 end;
+          div_cases;
+          cbv beta iota delta [da db dc dd de df dg dh dl]; cbn [map];
+          dec_norm; reflexivity ]
     | split_dense IL IE; (let n := eval vm_compute in (lanes R) in enc_norm n); dec_norm; model_norm R IL IE; norm_lanes R; reflexivity
     | (* across-vector reductions of the instruction set: the model is the same fold *)
       unfold vreduce_add, vreduce_max, vreduce_min; dec_norm; cbv zeta; reflexivity
@@ -496,10 +538,16 @@ Ltac solve_float R :=
 
 Ltac solve_fallback :=
   intros T Mt;
-  cbv beta iota delta [method_goal bin_goal dbin_goal roll_goal fold_goal fb_inst];
+  cbv beta iota delta [method_goal bin_goal dbin_goal roll_goal fold_goal obin_goal odbin_goal tot2 ddec fb_inst];
   intros; open_dense; open_ok;
   change (lanes (fallback_ops Mt)) with 1%nat in *;
-  explode_all; unfold_all; reflexivity.
+  explode_all; unfold_all;
+  first [ reflexivity
+        | (* Math::div may panic: one case per call, in the order of evaluation *)
+          cbn [fallback_ops r_div r_div_dense apply_dense2_opt lane1 hd];
+          repeat match goal with
+                 | |- context [m_div Mt ?a ?b] => destruct (m_div Mt a b); cbn [obind option_map]; try reflexivity
+                 end ].
 
 Ltac solve_method :=
   lazymatch goal with
